@@ -151,9 +151,9 @@ func runOwnPair(p *core.Program, r *core.Report, rule string) {
 				return nil
 			}
 			samePortGuard := func(at ssa.Instruction) bool {
-				isPortEq := func(v ssa.Value) bool {
+				isPortCmp := func(v ssa.Value, op token.Token) bool {
 					cmp, ok := v.(*ssa.BinOp)
-					if !ok || cmp.Op != token.EQL {
+					if !ok || cmp.Op != op {
 						return false
 					}
 					isPort := func(t types.Type) bool {
@@ -162,7 +162,9 @@ func runOwnPair(p *core.Program, r *core.Report, rule string) {
 					}
 					return isPort(cmp.X.Type()) && isPort(cmp.Y.Type())
 				}
-				return dominatedByCondEdge(at.Parent(), isPortEq, true, at.Block())
+				isPortEq := func(v ssa.Value) bool { return isPortCmp(v, token.EQL) }
+				isPortNeq := func(v ssa.Value) bool { return isPortCmp(v, token.NEQ) }
+				return dominatedByCondEdge(at.Parent(), isPortEq, true, at.Block()) || dominatedByCondEdge(at.Parent(), isPortNeq, false, at.Block())
 			}
 			if src := movedFrom(st.Val); src != nil && src != slot && samePortGuard(st) {
 				// (d) only an owner has something to hand over: the record
